@@ -736,6 +736,11 @@ class Engine:
                 isinstance(b, (Obj, VList, VFunc, VClass, VStub, VBound, VPartial, VNamespace, VCoro)):
             if isinstance(a, VBound) and isinstance(b, VBound):
                 return a.self is b.self and a.func is b.func
+            if isinstance(a, VClass) and isinstance(b, VClass) and a is not b and \
+                    (a.name.startswith('sym:') or b.name.startswith('sym:')):
+                # a class given by the caller (symbolic) may BE any known class: identity of the class terms
+                self.need_hierarchy()
+                return a.term == b.term
             return a is b
         raise Unsupported('`is` between %r and %r' % (a, b))
 
@@ -808,7 +813,7 @@ class Engine:
             f = fr
             while f is not None and f.func is fr.func:
                 if e.id in f.loop_assigned:
-                    raise Unsupported('%s is read after the loop that assigns it (bound iff the loop ran)' % e.id, e)
+                    raise MaybeUnbound('%s is read after the loop that assigns it (bound iff the loop ran)' % e.id, e)
                 f = f.parent
             self.throw('UnboundLocalError', origin='unbound local %s' % e.id)
         return self.module_lookup(fr.module, e.id, e)
@@ -820,6 +825,8 @@ class Engine:
             if isinstance(part, ast.FormattedValue):
                 try:
                     self.eval(part.value, fr)
+                except MaybeUnbound:
+                    raise
                 except Unsupported:
                     pass
         return self.fresh_str('fstr')
@@ -1022,6 +1029,14 @@ class Engine:
                 r = h(self, o, name, node)
                 if r is not None:
                     return r
+            if o.cls == 'callable' and name in ('__name__', '__qualname__', '__module__', '__doc__'):
+                # a callable handed in by the user need not be a plain function: functools.partial objects and
+                # instances with __call__ have no __name__ / __qualname__
+                if name in ('__name__', '__qualname__') and \
+                        self.choose([('a_function', None), ('a_partial_or_callable_instance', None)],
+                                    'kind of callable') != 'a_function':
+                    self.throw('AttributeError', origin='%s of a callable that is not a function' % name)
+                return self.fresh_str(name.strip('_'))
             raise Unsupported('attribute %s of %r' % (name, o), node)
         if isinstance(o, VStub) and name in o.attrs:
             return o.attrs[name]
@@ -1385,8 +1400,17 @@ class Engine:
         if isinstance(st.value, ast.Constant):
             return   # docstring
         if _is_logging_call(st.value):
+            # the call itself is dropped (a no-op for every property); its ARGUMENTS are still evaluated where the
+            # engine can: reading them may raise (a local that is not bound on this path)
             self.dropped.add('logging call')
-            self.report.dropped.add('logging calls (no-ops)')
+            self.report.dropped.add('logging calls (no-ops; arguments are evaluated)')
+            for a in list(st.value.args) + [k.value for k in st.value.keywords]:
+                try:
+                    self.eval(a, fr)
+                except MaybeUnbound:
+                    raise
+                except Unsupported:
+                    pass
             return
         self.eval(st.value, fr)
 
